@@ -32,6 +32,7 @@ type Closer struct {
 // Script of a ring run.
 type Script struct {
 	Size    int      `json:"size"`
+	Cfg     int      `json:"cfg,omitempty"` // if non-zero: the size asked for (the library rounds it up to Size)
 	Prod    []Op     `json:"prod"`
 	Cons    []Op     `json:"cons"`
 	Closers []Closer `json:"closers,omitempty"`
@@ -394,7 +395,11 @@ func Run(script interface{}, cfg simrt.Config) *world.Outcome {
 	}
 	service.VerifResetCounters()
 	res := simrt.Run(cfg, nil, func(s *simrt.Sim) {
-		buf, err := service.VerifNewBuffer(int64(sc.Size))
+		cfgSize := sc.Size
+		if sc.Cfg != 0 {
+			cfgSize = sc.Cfg
+		}
+		buf, err := service.VerifNewBuffer(int64(cfgSize))
 		if err != nil {
 			out.Aborted = "newBuffer: " + err.Error()
 			return
